@@ -1480,6 +1480,10 @@ class Render:
         if self.inloop:
             # skoolmacro escapes quotes in the output strings of #FOR/#FOREACH in HTML mode (reported; see probes)
             cands = [c for c in cands if c not in '\'"']
+            if any(c in joined for c in '\'"'):
+                # ... so a quote inside a string of a macro nested in a loop reaches that macro as "&#x27;" / "&quot;":
+                # the ";" (and "&", "#") in it would be taken for the delimiter - same open finding, keep away from it
+                cands = [c for c in cands if c not in ';&#']
         if not self.htmlsafe:
             pass
         elif any(c in joined for c in '&<>'):
@@ -1493,7 +1497,7 @@ class Render:
             self.used.add('str:alt1')
             return d + items[0] + d
         seps = [c for c in ALT_DELIMS + ' ' + ',' if c not in joined and (c != ';' or not any(x in joined for x in '&<>'))
-                and not (self.inloop and c in '\'"')]
+                and not (self.inloop and c in '\'"') and not (self.inloop and c in ';&#' and any(x in joined for x in '\'"'))]
         if not seps:
             return None
         sp = d if (r.random() < .3 and d in seps) else (' ' if (r.random() < .2 and ' ' in seps) else r.choice(seps))
@@ -1593,6 +1597,9 @@ class Render:
             b2, s2 = body.replace(PH_LOOP, var), sep.replace(PH_LOOP, var)
             # the value must replace exactly the placeholders: no accidental occurrence may arise
             if b2.count(var) != body.count(PH_LOOP) or s2.count(var) != sep.count(PH_LOOP):
+                continue
+            # ... nor an overlapping one: 'ub1z' + 'zz' holds 'zz' once, but one character early
+            if b2.replace(var, '\ue0ff') != body.replace(PH_LOOP, '\ue0ff') or s2.replace(var, '\ue0ff') != sep.replace(PH_LOOP, '\ue0ff'):
                 continue
             if any(c in var for c in '&<>;') or var in ('amp', 'lt', 'gt'):
                 continue
